@@ -143,6 +143,17 @@ CHECKS = {
          "library on every run: documents token for token (cfg(bpaf_verif) capture hook), html and manpage byte for byte, plus "
          "explicit balanced/unbalanced token lists through the renderer hooks. render_markdown is not modelled (oracle only).",
          "4/C16", "Rocq proof (roff control-line invariant, escape round-trips, HTML tag reader, nesting) + byte-exact differential of html/manpage + independent lexers"),
+ "C04": ("proof", "PARTIAL. Theorems in coq/Props/C04.v: the ledger bound `remaining <= number of items` holds initially and is kept by "
+         "the evaluation of every parser from every state (through Reach.eval_reach_all), the item list is never changed; with "
+         "it, the repetition loops (many/collect, some, count, last) never exhaust the fuel the model gives them -- the "
+         "consumed-something rule makes `len` strictly decrease -- for every inner parser. NOT theorems: termination of the "
+         "adjacent-group retry loop (fuelled; FUEL is a distinct outcome in the differential run), absence of panics (explicit "
+         "panic outcomes at every slicing/subtraction/unreachable site of the model are compared with the implementation; one "
+         "class is a known finding, two were repaired by fix: commits), purity (by construction in Gallina; tied by re-running). "
+         "Implementation side: every case under catch_unwind + watchdog; `twice` (same OptionParser, same vector) and `history` "
+         "(one OptionParser: parse, completion at revisions 0/1/7/8/9 with and without an application name, html/markdown/"
+         "manpage; two rounds must be identical).",
+         "4/C04", "Rocq proof (ledger bound invariant, loop termination) + differential with explicit panic/fuel outcomes + run histories under catch_unwind"),
 }
 
 NA_REASON = "check not built yet in this revision (machinery under construction; see DESIGN.md section 7 staging)"
